@@ -1,20 +1,21 @@
 #!/bin/bash
 # MANIFEST.setup_cmd: build the framework from files on disk only (offline).
 set -e
-cd /verif
+R=${VERIF_ROOT:-/verif}
+cd $R
 export GOFLAGS=-mod=mod GOPROXY=off GOSUMDB=off GOTOOLCHAIN=local CGO_ENABLED=1
-export GOCACHE=/verif/.cache/go
+export GOCACHE=/verif/.cache/go; [ -d /verif/.cache ] || export GOCACHE=$R/.cache/go
 mkdir -p .cache/go bin work evidence replays
 # 1. Coq development: full .vo build
-cd /verif/coq
+cd $R/coq
 coq_makefile -f _CoqProject -o Makefile > /dev/null
 timeout 3000 make -j16 2>&1 | tail -5
 # 2. extraction + driver
-cd /verif
+cd $R
 tools/build_model.sh
 # 3. harness (warms the Go build cache)
 cp /repo/go.sum harness/go.sum 2>/dev/null || true
-cd /verif/harness
-timeout 900 go build -tags verif -o /verif/bin/vh ./cmd/vh
-if [ -d cmd/gentables ]; then timeout 600 go build -tags verif -o /verif/bin/gentables ./cmd/gentables; fi
+cd $R/harness
+timeout 900 go build -tags verif -o $R/bin/vh ./cmd/vh
+if [ -d cmd/gentables ]; then timeout 600 go build -tags verif -o $R/bin/gentables ./cmd/gentables; fi
 echo setup-ok
